@@ -241,7 +241,7 @@ fn main() {
     // editing states: balanced skeletons, truncated identifiers, shuffled items, impl / extend headers
     for (ci, (name, text)) in corpus.iter().enumerate() {
         let (bs, ts) = if quick {
-            (balanced_states(text, 7, ci), identifier_truncations(text, false, 9, ci))
+            (balanced_states(text, 13, ci), identifier_truncations(text, false, 17, ci))
         } else {
             (balanced_states(text, 1, 0), identifier_truncations(text, true, 1, 0))
         };
